@@ -1271,6 +1271,9 @@ class HasSalt(GenericHandler):
         if default_salt_size is not None:
             if isinstance(default_salt_size, str):
                 default_salt_size = int(default_salt_size)
+            elif not isinstance(default_salt_size, int):
+                # e.g. a float: would be accepted here and fail inside hash()
+                raise exc.ExpectedTypeError(default_salt_size, "integer", "salt_size")
             subcls.default_salt_size = subcls._clip_to_valid_salt_size(
                 default_salt_size, param="salt_size", relaxed=relaxed
             )
